@@ -46,9 +46,10 @@ type c05Params struct {
 	out, in  int // telegrams client->bus, bus->client
 	prefix   int // acknowledged exchanges in both directions before exploration (wrap)
 	dupDelay bool
-	apps     int // concurrent application goroutines sharing the outbound telegrams (default 1)
-	ackFails int // socket writes of the client's acknowledgements that may fail (transient error)
-	away     int // the application does not read Inbound during the first away ms (longer than every timeout of the client)
+	apps     int  // concurrent application goroutines sharing the outbound telegrams (default 1)
+	ackFails int  // socket writes of the client's acknowledgements that may fail (transient error)
+	reconn   bool // after the first telegram in each direction the gateway ends the connection and accepts the reconnect (numbering restarts)
+	away     int  // the application does not read Inbound during the first away ms (longer than every timeout of the client)
 }
 
 func c05Run(p c05Params) func() {
@@ -190,9 +191,19 @@ func c05Run(p c05Params) func() {
 			mc.SetQuiet(false)
 		}
 		done := mc.NewChan[int](8, "c05.done")
+		phase1 := mc.NewChan[int](8, "c05.phase1")
+		phase2 := mc.NewChan[int](0, "c05.phase2")
+		barrier := func(i int) {
+			if p.reconn && i == 0 {
+				phase1.Send(1)
+				phase2.Recv2()
+			}
+		}
 		mc.GoEnv("gateway-sender", func() {
 			for i := 0; i < p.in; i++ {
-				if !gwSendOne(200 + i) {
+				ok := gwSendOne(200 + i)
+				barrier(i)
+				if !ok {
 					break // a real gateway would now tear the connection down
 				}
 			}
@@ -209,9 +220,23 @@ func c05Run(p c05Params) func() {
 					t0 := mc.Now()
 					err := t.Send(Msg(i))
 					mc.Log(Ret{"Send", i, errStr(err), t0})
+					barrier(i)
 				}
 				done.Send(1)
 			})
+		}
+		if p.reconn {
+			for a := 0; a < apps+1; a++ {
+				phase1.Recv()
+			}
+			mc.Sleep(T + 1*ms)
+			quietNet, connected = true, false
+			mc.Log(Note("the gateway ends the connection"))
+			sock.Deliver(&knxnet.DiscReq{Channel: ch})
+			mc.Sleep(10 * ms)
+			gExp, gOut = 0, 0
+			quietNet = false
+			phase2.Close()
 		}
 		for a := 0; a < apps+1; a++ {
 			done.Recv()
@@ -362,6 +387,9 @@ func init() {
 	// the application is away for longer than the response timeout while acknowledged telegrams wait
 	aw := c05Params{R: 100, T: 150, out: 1, in: 3, away: 1000}
 	register("both", &h.Scenario{Name: "C05-direct-1out-3in-application-away-1s-F2", Prop: "C05", P: 0, F: 2, D: -1, Run: c05Run(aw), Check: c05Oracle(aw)})
+	// a reconnect in the middle of the stream: numbering restarts in both directions
+	rc := c05Params{R: 100, T: 150, out: 3, in: 3, reconn: true}
+	register("both", &h.Scenario{Name: "C05-direct-3out-3in-reconnect-after-first-F2", Prop: "C05", P: 0, F: 2, D: -1, Run: c05Run(rc), Check: c05Oracle(rc)})
 	e := c05Params{R: 100, T: 350, out: 3, in: 3, dupDelay: true}
 	register("thorough", &h.Scenario{Name: "C05-direct-3out-3in-F3", Prop: "C05", P: 0, F: 3, D: -1, Run: c05Run(e), Check: c05Oracle(e)})
 	f := c05Params{R: 100, T: 150, out: 3, in: 2, dupDelay: true}
